@@ -43,6 +43,9 @@ program drv_f
 #ifdef HAVE_Box
   type(box) :: bx(0:NH-1)
 #endif
+#ifdef HAVE_Bag
+  type(bag) :: bg(0:NH-1)
+#endif
 #ifdef HAVE_Pt
   type(pt) :: ptv
 #endif
@@ -238,6 +241,15 @@ contains
     case ("pt_scale")
        ptv%x = a; ptv%y = a + 0.5d0
        call sim_phase(1); call pt_scale(ptv, int(b, C_INT)); call sim_phase(0); call res_arr(int(ptv%x), int(ptv%y * 2))
+#endif
+#ifndef SIMC
+    case ("bag_new")
+       allocate(iv(b)); do i = 1, b; iv(i) = i; end do
+       call sim_phase(1); bg(a) = bag(iv); call sim_phase(0); call res_none(); deallocate(iv)
+    case ("bag_total")
+       call sim_phase(1); r = bg(a)%total(); call sim_phase(0); call res_int(int(r))
+    case ("bag_delete")
+       call sim_phase(1); call bg(a)%delete(); call sim_phase(0); call res_none()
 #endif
 #ifndef SIMC
     case ("make_box")
